@@ -52,7 +52,9 @@ def gen_params(rng, names, budget_steps, Tmax=3.0):
             vals[n] = round(rng.uniform(-8, 2), 3)
         elif n.startswith('m'):
             vals[n] = round(rng.uniform(0, 10), 3)
-    nus = [v for n, v in vals.items() if M.kind_of(n) == 'pos'] + [0.05]      # fractions of the reference size also act as sizes
+    nus = [v for n, v in vals.items() if M.kind_of(n) == 'pos'] + [1.0]
+    if 's' in vals:                       # fractions of the reference size act as population sizes (s and 1-s)
+        nus += [vals['s'], 1 - vals['s']]
     ms = sum(v for n, v in vals.items() if n.startswith('m'))
     gs = max([abs(v) for n, v in vals.items() if n.startswith('gamma')] + [0])
     rate = max(0.25 / min(nus), ms, gs, 1e-9)
@@ -118,6 +120,10 @@ def run(ctx):
         'the translator harness/translate/models_dsl.py (fail-closed) and the parameter kinds derived from the declared names',
         'FunctionalExtensionality (standard library axiom) in the soundness proofs']
     data = json.load(open(DATA))
+    ctx.notes.append('observed on the unchanged tree: nesting pairs agree to <= 4e-13 relative (mostly exactly); coarse grids (12-24 points) give negative '
+                     'entries in about 4% of short-time runs and 25% of long-time runs with strong migration/selection, all vanishing or shrinking by 0.25-0.5 per grid doubling; '
+                     'label exchange error 1e-6..1e-3 at timescale_factor=1e-3, ratio 0.006-0.15 at 1/64 of it; equil (params[0]) and the snm placeholders accept longer vectors; '
+                     'bottlegrowth_2d_sel: gamma2 has no effect (split at time 0), committed under "ineffective_params"')
     try:
         tr = M.Translator(lib.REPO)
     except (M.Refuse, SyntaxError, OSError) as e:
